@@ -9,7 +9,8 @@ package rosmar
 // ---------------------------------------------------------------------------------------------------------------
 // Specification vocabulary (transcribed from the property statements, DESIGN.md appendix E)
 
-//@ spec DocInv(r) = !r.present || ((r.tombstone == 1 <==> isnull(r.value)) && (r.tombstone == 0 || r.tombstone == 1) && r.rev >= 1 && r.cas >= 0 && r.exp >= 0 && r.exp <= 4294967295)
+//@ spec DocInv(r) = !r.present || ((r.tombstone == 1 <==> isnull(r.value)) && (r.tombstone == 0 || r.tombstone == 1) && r.rev >= 1 && validX(r.xattrs) && r.cas >= 0 && r.exp >= 0 && r.exp <= 4294967295)
+//@ spec validX(x) = isnull(x) || (xok(x) && !xmapnil(x) && len(x) > 0)
 //@ spec hasBody(r) = r.present && !isnull(r.value)
 //@ spec nextrev(r) = if r.present then r.rev + 1 else 1
 //@ spec sameDoc(a, b) = a.present == b.present && a.value == b.value && a.cas == b.cas && a.exp == b.exp && a.xattrs == b.xattrs && a.isJSON == b.isJSON && a.tombstone == b.tombstone && a.rev == b.rev
@@ -114,6 +115,8 @@ package rosmar
 //@   ensures [C02:remove.rejected]  ifCas != nil && r.present && *ifCas != r.cas ==> err != nil && db == old(db) && (iscasmismatch(err) || isdberr(err) || isclosed(err))
 //@   ensures [C01,C05,C14:remove.tombstone] err == nil ==> r2.present && isnull(r2.value) && r2.tombstone == 1 && r2.exp == 0 && r2.isJSON == 0 && r2.cas == newCas && casOut == newCas
 //@   ensures [C01:remove.missing]   !r.present ==> err != nil
+//@   loop 1001 invariant [C05:remove.loop] forall k: Str :: it[k] == (if visited[k] && !issys(k) then NOX else it0[k])
+//@   ensures [C05:remove.sysxattrs] err == nil ==> forall k: Str :: xget(r2.xattrs, k) == (if issys(k) then xget(r.xattrs, k) else NOX)
 //@
 //@ fn (*Collection).GetAndTouchRaw
 //@   let r = old(doc(c.id, key))
@@ -157,7 +160,7 @@ package rosmar
 //@   use mutator
 //@   ensures [C02:WriteCas.cas-necessary]  err == nil && !ins ==> r.present && cas == r.cas
 //@   ensures [C02:WriteCas.cas-rejected]   !ins && r.present && cas != r.cas ==> err != nil && db == old(db)
-//@   ensures [C02:WriteCas.cas-class]      !ins && r.present && cas != r.cas && count("sql") >= 2 ==> iscasmismatch(err) || isdberr(err)
+//@   ensures [C02:WriteCas.cas-class]      !ins && r.present && cas != r.cas && count("sql") >= 2 ==> iscasmismatch(err) || ismissing(err) || iskeyexists(err) || isdberr(err)
 //@   ensures [C02:WriteCas.cas-actual]     iscasmismatch(err) ==> err.Actual == r.cas && err.Expected == cas
 //@   ensures [C06:WriteCas.insert-only-if] err == nil && ins ==> !hasBody(r)
 //@   ensures [C06:WriteCas.insert-refused] ins && hasBody(r) ==> err != nil && db == old(db)
